@@ -232,6 +232,12 @@ where
         ".nan" | "+.nan" | "-.nan" => Ok(T::nan()),
         ".inf" | "+.inf" => Ok(T::infinity()),
         "-.inf" => Ok(T::neg_infinity()),
+        // Rust's float parser also understands the words `inf`, `infinity` and `nan`, which are
+        // plain strings in YAML: a float literal has at least one digit.
+        _ if !t.bytes().any(|b| b.is_ascii_digit()) => Err(Error::InvalidScalar {
+            ty: "floating point",
+            location,
+        }),
         _ => t.parse::<T>().map_err(|_| Error::InvalidScalar {
             ty: "floating point",
             location,
@@ -265,6 +271,12 @@ where
         ".nan" | "+.nan" | "-.nan" => Ok(T::nan()),
         ".inf" | "+.inf" => Ok(T::infinity()),
         "-.inf" => Ok(T::neg_infinity()),
+        // Rust's float parser also understands the words `inf`, `infinity` and `nan`, which are
+        // plain strings in YAML: a float literal has at least one digit.
+        _ if !t.bytes().any(|b| b.is_ascii_digit()) => Err(Error::InvalidScalar {
+            ty: "floating point",
+            location,
+        }),
         _ => t.parse::<T>().map_err(|_| Error::InvalidScalar {
             ty: "floating point",
             location,
